@@ -221,18 +221,24 @@ def decode_result(l, with_value=False):
 
 # ---- snapshot of the real machine ---------------------------------------------------------
 
+def plain(x):
+    """hera.data.Label / DataLabel / Constant are ints with a class of their own: what the machine holds is the
+    integer (bools and anything that is no int at all are kept, so that the well-formedness oracle sees them)."""
+    return int(x) if isinstance(x, int) and not isinstance(x, bool) else x
+
+
 def snapshot_vm(vm, stdout="", stderr=""):
     d = {}
-    d["regs"] = [int(x) if not isinstance(x, bool) else x for x in vm.registers]
-    d["pc"] = vm.pc
-    d["dc"] = vm.dc
+    d["regs"] = [plain(x) for x in vm.registers]
+    d["pc"] = plain(vm.pc)
+    d["dc"] = plain(vm.dc)
     d["flags"] = {"s": canon_val(vm.flag_sign), "z": canon_val(vm.flag_zero),
                   "v": canon_val(vm.flag_overflow), "c": canon_val(vm.flag_carry),
                   "cb": canon_val(vm.flag_carry_block)}
     d["mlen"] = len(vm.memory)
-    d["mem"] = {k: v for k, v in enumerate(vm.memory) if v != 0}
+    d["mem"] = {k: plain(v) for k, v in enumerate(vm.memory) if v != 0}
     d["halted"] = canon_val(vm.halted)
-    d["ers"] = [list(p) for p in vm.expected_returns]
+    d["ers"] = [[plain(x) for x in p] for p in vm.expected_returns]
     d["op_count"] = vm.op_count
     d["warned_ovf"] = canon_val(vm.warned_for_overflow)
     d["warning_count"] = vm.warning_count
